@@ -1,11 +1,18 @@
 #!/bin/bash
-# Builds the whole framework offline from files on disk: the Coq development (full .vo build),
-# the extracted OCaml judge, the Rust harness and the lsp4spl binary with the `verif` hook.
+# Builds the whole framework offline from files on disk: the Coq development needed by the registered checks (full .vo
+# build of the extracted judge's sources and of every registered property file with everything they depend on), the
+# extracted OCaml judge, the Rust harness and the lsp4spl binary with the `verif` hook.
 set -e
 cd "$(dirname "$0")"
 export CARGO_NET_OFFLINE=true
 mkdir -p .cache work evidence
-(cd coq && coq_makefile -f _CoqProject -o Makefile && timeout 3000 make -j16)
+targets=$(python3 - <<'PY'
+import json
+m = json.load(open("MANIFEST.json"))
+print(" ".join(["theories/Judge/Extract.vo"] + ["theories/Props/%s.vo" % c["property_id"] for c in m["checks"]]))
+PY
+)
+(cd coq && coq_makefile -f _CoqProject -o Makefile && timeout 3000 make -j16 "COQC=timeout 1200 coqc" $targets)
 python3 - <<'PY'
 import sys
 sys.path.insert(0, "tools")
@@ -14,8 +21,7 @@ exe, log = common.build_judge()
 assert exe, log
 d, log = common.build_harness()
 assert d, log
-if hasattr(common, "build_server"):
-    s, log = common.build_server()
-    assert s, log
+s, log = common.build_server()
+assert s, log
 print("setup ok")
 PY
